@@ -29,7 +29,7 @@ func init() {
 				cs = append(cs, mkCase("", "c01", "HTemp", cfg, kind, 0), mkCase("", "c01", "HTemp", cfg, kind, 1))
 				if tier == "thorough" {
 					// two-step histories: first step from the mutating templates
-					for _, t1 := range []int64{0, 2, 4, 6, 7, 8} {
+					for _, t1 := range []int64{0, 2, 4, 6, 7, 8, 9} {
 						for t2 := int64(0); t2 < 15; t2++ {
 							cs = append(cs, mkCase("", "c01", "HStep2", cfg, kind, 1, t1, t2))
 						}
@@ -44,7 +44,7 @@ func init() {
 			b := map[string]any{"history_length": 1, "seed_trees": "S0..S4", "universe_paths": 9, "flag_bits": "O_ACCMODE|O_CREATE|O_EXCL|O_TRUNC|O_APPEND (access mode 3 excluded)", "perm_bits": "0o777 for creation, 0o7777 for Chmod", "uid_gid": "-1..70000", "truncate_size": "-2..4", "unclean_symbolic_bytes": 3,
 				"outside": "longer histories, deeper trees, Chdir/relative paths, flag bits outside the mask, O_SYNC, non-administrator users (C03)"}
 			if tier == "thorough" {
-				b["history_length"] = "1, and 2 from seed S1 with the first step in {Mkdir, OpenFile, Remove, Rename, Link, Symlink}"
+				b["history_length"] = "1, and 2 from seed S1 with a successful first step in {Mkdir 0750, OpenFile O_WRONLY|O_CREATE|O_TRUNC 0640 writing one byte, Remove, Rename, Link, Symlink, Truncate to 1} over all universe operands (a failing first step leaves the tree unchanged, asserted, and is therefore covered by length 1)"
 				b["unclean_symbolic_bytes"] = 5
 			}
 			return b
